@@ -52,7 +52,7 @@ Lemma comp_pattern_from_str_nopanic s : comp_pattern_from_str s <> PPanic.
 Proof.
   assert (Hplain : match comp_from_str s with POk c => POk (CPComp c) | PErr => PErr | PPanic => PPanic end <> PPanic).
   { pose proof (comp_from_str_nopanic s). destruct (comp_from_str s); [discriminate|discriminate|congruence]. }
-  unfold comp_pattern_from_str. destruct (length s <=? 0)%nat eqn:El; [exact Hplain|].
+  unfold comp_pattern_from_str, comp_pattern_from_str_with. destruct (length s <=? 0)%nat eqn:El; [exact Hplain|].
   destruct s as [|c0 r]; [cbn in El; discriminate|].
   destruct (negb (c0 =? 60)) eqn:E0; [exact Hplain|].
   destruct (last_opt (c0 :: r)) as [cl|] eqn:Elast; [|apply last_opt_none in Elast; discriminate].
@@ -73,15 +73,15 @@ Qed.
 
 Lemma cpats_from_strs_nopanic l : cpats_from_strs l <> PPanic.
 Proof.
-  induction l as [|s r IH]; simpl; [discriminate|].
+  unfold cpats_from_strs. induction l as [|s r IH]; cbn [cpats_from_strs_with]; [discriminate|].
   pose proof (comp_pattern_from_str_nopanic s). destruct (comp_pattern_from_str s); try congruence; try discriminate.
-  destruct (cpats_from_strs r); try congruence; discriminate.
+  destruct (cpats_from_strs_with comp_pattern_from_str r); try congruence; discriminate.
 Qed.
 
 Lemma name_pattern_from_str_nopanic s : name_pattern_from_str s <> PPanic.
 Proof.
-  unfold name_pattern_from_str. pose proof (split_on_nonnil 47 s []) as H.
-  destruct (split_on 47 s []) as [|s0 r]; [congruence|].
+  unfold name_pattern_from_str, name_pattern_from_str_with. pose proof (split_on_nonnil 47 s []) as H.
+  destruct (split_on 47 s []) as [|s0 r]; [congruence|]. fold comp_pattern_from_str. fold cpats_from_strs.
   set (strs1 := if (length s0 =? 0)%nat then r else s0 :: r).
   destruct (0 <? length strs1)%nat eqn:E; [|apply cpats_from_strs_nopanic].
   destruct (last_opt strs1) eqn:El; [apply cpats_from_strs_nopanic|].
